@@ -198,6 +198,7 @@ func scenarioConfigs() []*config {
 		},
 		{
 			Name: "S16-long-poll-handover", Props: []string{"C01", "C02", "C06"},
+			Bounds: tiny, Shards: 1,
 			Doc:         "an idle worker long-polls for up to 5 ticks; a task is handed to it after 0..5 ticks; the worker then works for 2 ticks (or reports progress) before it completes; worker timeout 3",
 			Predeclared: pre0, MaxTicks: 5, IdleSync: 5,
 			Workers: []workerSpec{{Name: "w1", MaxCalls: 3, Busy: []string{"sleep2", "ok", "exec"}}},
